@@ -175,6 +175,7 @@ pub fn run(tier: &str) -> i32 {
             {
                 let mut bad = std::collections::BTreeMap::new();
                 bad.insert((1u8, 2u8), 3u8);
+                #[cfg(feature = "v4_local")]
                 let _ = crate::adapter::guard(|| {
                     use rusty_paseto::prelude::*;
                     let mut b = GenericBuilder::<V4, Local>::default();
